@@ -125,6 +125,8 @@ def _setup(servertype):
 def _teardown():
     if "served" in _live:
         _live["served"].stop()
+    if _live.get("served2") is not None:
+        _live["served2"].stop()
     _live.clear()
 
 
@@ -291,6 +293,29 @@ def run_h(case, servertype, keep):
                         viol(sig, "%s: served by instance %r, the %s instance is %r" % (label, serial, mode, want))
                         model["seen"].add(serial)
                         break
+        # 'single' means one instance per DAEMON: a second daemon of the same process serving the same class has its own
+        if not V and mode == "single" and model["created"] >= 1 and (script is None or all(a == "ok" for a in script)):
+            srv2 = L.get("served2")
+            if srv2 is None or not srv2.loop_alive():
+                srv2 = L["served2"] = live.Served(servertype)
+            srv2.daemon.register(C, oid)
+            try:
+                with live.proxy(srv2.uri(oid), serializer=case["ser"]) as p2:
+                    got2 = p2.who()
+                model["attempts"] += 1
+                model["created"] += 1
+                if got2 in model["seen"] or got2 == model["single"]:
+                    viol("single-instance-shared-between-daemons", "a second daemon serving the same 'single' class answered with instance %r, "
+                         "which is the first daemon's" % (got2,))
+                model["seen"].add(got2)
+            except Exception as x:
+                viol("call-failed", "call on the second daemon failed with %r" % (x,))
+            finally:
+                try:
+                    srv2.daemon.unregister(oid)
+                except Exception:
+                    pass
+                srv2.daemon._pyroInstances.pop(C, None)
         # global accounting
         if not V:
             for i in sorted(dirty):
